@@ -10,13 +10,14 @@ export GOFLAGS=-mod=mod GOPROXY=off GOSUMDB=off GOTOOLCHAIN=local
 cd "$WT" || exit 2
 DEMO="$(ls zz_seeded_*_test.go 2>/dev/null | head -1)"
 [ -n "$DEMO" ] || { echo "no demo"; exit 2; }
-RUN="$(grep -o 'func Test[A-Za-z0-9_]*' "$DEMO" | head -1 | sed 's/func //')"
+RUN="$(grep -o 'func TestSeeded[A-Z][0-9][0-9]' "$DEMO" | head -1 | sed 's/func //')"   # all TestSeeded<ID>* tests of the demo
+RACE="${RACE:-}"
 SRC="$(git diff --name-only | tr '\n' ' ')"
 git diff -- $SRC > /tmp/seeded-$ID.diff
-with="$(unshare -n sh -c "ip link set lo up; go test -vet=off -count=1 -run '$RUN' . 2>&1" | tail -1)"
-git stash -q -- $SRC
-without="$(unshare -n sh -c "ip link set lo up; go test -vet=off -count=1 -run '$RUN' . 2>&1" | tail -1)"
-git stash pop -q
+with="$(unshare -n sh -c "ip link set lo up; go test $RACE -vet=off -count=1 -run '$RUN' . 2>&1" | tail -1)"
+git apply -R /tmp/seeded-$ID.diff   # (no git stash: the stash is shared between worktrees)
+without="$(unshare -n sh -c "ip link set lo up; go test $RACE -vet=off -count=1 -run '$RUN' . 2>&1" | tail -1)"
+git apply /tmp/seeded-$ID.diff
 mv "$DEMO" /tmp/"$DEMO".aside
 suite="$(unshare -n sh -c "ip link set lo up; go test -vet=off -count=1 -timeout 25m ./... 2>&1" | grep -E '^(ok|FAIL|---)' | tr '\n' ';')"
 mv /tmp/"$DEMO".aside "$DEMO"
